@@ -218,6 +218,37 @@ m("M-settleremove", "C14", "T-settle-then-remove", ("x/sao/keeper/msg_server_ter
 m("M-rescan", "C20", "G-rescan", ("x/node/keeper/hooks.go", "\tdelegations := hook.k.staking.GetValidatorDelegations(ctx, valAddr)\n", "\tdelegations := hook.k.staking.GetValidatorDelegations(ctx, valAddr)\n\tif len(delegations) > 100 {\n\t\treturn\n\t}\n"))
 m("M-keyparams", "C19", "T-keyparams", ("x/node/types/fault.go", "\tproviderBytes := []byte(provider)\n", ""), ("x/node/types/fault.go", "\tkey = append(key, providerBytes...)\n", ""))
 
+# ---- round r1 (seed on a refactored tree): hand-made variants of the new rules on the pinned tree, and controls
+m("M-persist-ptr", "C05", "T-persist", ("x/model/keeper/data_management.go",
+   "\tk.ResetMetaDuration(ctx, &metadata)\n\n\tk.SetMetadata(ctx, metadata)\n\treturn\n}",
+   "\tk.SetMetadata(ctx, metadata)\n\tk.ResetMetaDuration(ctx, &metadata)\n\treturn\n}"))
+m("M-release-own14", "C14", "G-release-own", ("x/market/keeper/pool_management.go",
+   "if shard.Status == ordertypes.ShardCompleted && shard.OrderId == order.Id {", "if shard.Status == ordertypes.ShardCompleted && shard.OrderId <= order.Id {"))
+m("M-accrual", "C06", "T-accrual-clock", ("x/market/keeper/pool_management.go",
+   "\t\tlogger.Error(\"no reward\", \"worker\", workerName)\n\t\treturn empty, nil", "\t\tlogger.Error(\"no reward\", \"worker\", workerName)\n\t\tk.SetWorker(ctx, worker)\n\t\treturn empty, nil"))
+m("M-sigowner", "C09", "T-sigowner", ("x/sao/keeper/verify.go",
+   "saodid.NewDidManagerWithDid(owner, querySidDocument)", "saodid.NewDidManagerWithDid(string(proposalBytes[:0])+jwsSignature.Protected, querySidDocument)"))
+m("M-settled", "C13", "T-settled-shards", ("x/model/keeper/data_management.go",
+   "\t\t\tif lastOrder.Commit != lastCommit {\n\t\t\t\tbreak\n\t\t\t}", "\t\t\tif lastOrder.Commit != lastCommit {\n\t\t\t\tmetadata.Status = types.MetaComplete\n\t\t\t\tk.SetMetadata(ctx, metadata)\n\t\t\t\treturn nil\n\t\t\t}"))
+m("M-unbind", "C17", "T-unbind-all", ("x/did/keeper/msg_server_update.go",
+   "\t\tremoveAccId = append(removeAccId, accountId.AccountId)\n", "\t\tif caip10.Network != DEFAULT_NETWORK {\n\t\t\tcontinue\n\t\t}\n\t\tremoveAccId = append(removeAccId, accountId.AccountId)\n"))
+m("M-filteruse", "C15", "T-filter-use",
+  ("x/node/keeper/reputation.go", "\tnodes := k.GetAllNodesByStatusAndReputationAndRole(ctx, uint32(types.NODE_NORMAL), status, 8000.0, size)\n", "\tall := k.GetAllNodesByStatusAndReputationAndRole(ctx, uint32(types.NODE_NORMAL), status, 8000.0, size)\n\tnodes := all\n"),
+  ("x/node/keeper/reputation.go", "\t\t\tnodes = append([]types.Node{superNode}, nodes...)\n\t\t}\n\t\treturn nodes", "\t\t\tnodes = append([]types.Node{superNode}, all...)\n\t\t}\n\t\treturn nodes"))
+m("M-sharessub", "C20", "T-shares-sub", ("x/node/keeper/hooks.go",
+   "\t\tif sharesBeforeModified.GT(del.GetShares()) {\n\t\t\tsharesToSub = sharesBeforeModified.Sub(del.GetShares())", "\t\tif !sharesBeforeModified.Equal(del.GetShares()) {\n\t\t\tsharesToSub = sharesBeforeModified.Sub(del.GetShares()).Abs()"))
+# faithful: the ignore filter builds a new list instead of cutting in place
+m("C-19", "C15", "", ("x/node/keeper/reputation.go",
+   "\tfor _, s := range ignore {\n\t\tfor index, node := range nodes {\n\t\t\tif s == node.Creator {\n\t\t\t\tnodes = append(nodes[:index], nodes[index+1:]...)\n\t\t\t\tbreak\n\t\t\t}\n\t\t}\n\t}\n",
+   "\tfor _, s := range ignore {\n\t\tkept := make([]types.Node, 0, len(nodes))\n\t\tdropped := false\n\t\tfor _, node := range nodes {\n\t\t\tif !dropped && s == node.Creator {\n\t\t\t\tdropped = true\n\t\t\t\tcontinue\n\t\t\t}\n\t\t\tkept = append(kept, node)\n\t\t}\n\t\tnodes = kept\n\t}\n"))
+# faithful: the clock is set before the accrual is added (order of two independent assignments)
+m("C-20", "C06", "", ("x/market/keeper/pool_management.go",
+   "\tworker.Reward.Amount = worker.Reward.Amount.Sub(sdk.NewDecFromInt(rewardCoin.Amount))\n\tworker.LastRewardAt = ctx.BlockHeight()\n", "\tworker.LastRewardAt = ctx.BlockHeight()\n\tworker.Reward.Amount = worker.Reward.Amount.Sub(sdk.NewDecFromInt(rewardCoin.Amount))\n"))
+# faithful: sharesToSub through a switch
+m("C-21", "C20", "", ("x/node/keeper/hooks.go",
+   "\t\tif sharesBeforeModified.GT(del.GetShares()) {\n\t\t\tsharesToSub = sharesBeforeModified.Sub(del.GetShares())\n\t\t} else if beforeDeletationRemoved {",
+   "\t\tdecreased := sharesBeforeModified.GT(del.GetShares())\n\t\tif decreased {\n\t\t\tsharesToSub = sharesBeforeModified.Sub(del.GetShares())\n\t\t} else if beforeDeletationRemoved {"))
+
 # patch-file mutants / controls: (id, property, expected rule or "" for silent, patch path)
 P = [
  ("C-5", "C19", "", "/verif/tools/controls/C-5-faithful-helper-reportfaults.diff"),
@@ -314,6 +345,12 @@ for (rid, prop) in [("R01", "C16"), ("R02", "C10"), ("R03", "C09"), ("R04", "C12
 RS = [('C01-a4', 'D1'), ('C02-a2', 'L2-sub'), ('C03-a4', 'D3'), ('C04-a4', 'T-price-dur'), ('C05-a3', 'T-aliaskey'), ('C06-a2', 'T-refund-class'), ('C07-a2', 'G-rmv'), ('C08-a2', 'T-claim'), ('C09-a2', 'G-store-upd'), ('C10-a4', 'G-renew'), ('C11-a3', 'T-sched-shard'), ('C12-a2', 'T-replace'), ('C13-a3', 'CAP-sched-delete'), ('C14-a1', 'T-couple'), ('C15-a4', 'G-distinct'), ('C16-a4', 'T-persist'), ('C17-a3', 'G-bind'), ('C18-a4', 'E6-all'), ('C19-a2', 'G-fish'), ('C20-a3', 'G-promote')]
 for (sid, rule) in RS:
     P.append(("RS-" + sid, sid.split("-")[0], rule, f"/verif/refactored_seeds/{sid}/combined.diff"))
+# round r1: seeds made on a refactored tree (patch.diff = refactor + seed relative to the pinned tree)
+for (sid, rule) in [("C01", "D3"), ("C02", "T-couple"), ("C03", "D3"), ("C04", "T-replica-dec"), ("C05", "T-persist"), ("C06", "T-accrual-clock"),
+                    ("C07", "T-release-amount"), ("C08", "T-claim"), ("C09", "T-sigowner"), ("C10", "G-payer"), ("C11", "T-sched-meta"),
+                    ("C12", "T-replace"), ("C13", "T-settled-shards"), ("C14", "G-release-own"), ("C15", "T-filter-use"), ("C16", "T-base"),
+                    ("C17", "T-unbind-all"), ("C18", "E6-all"), ("C19", "G-fault"), ("C20", "T-shares-sub")]:
+    P.append((f"S-{sid}-r1", sid, rule, f"/verif/seeded/{sid}-r1/patch.diff"))
 import glob as _glob
 for d in sorted(_glob.glob("/verif/refactors/R[0-9][0-9]")):
     rid = os.path.basename(d)
